@@ -193,4 +193,7 @@ var flagValueLeaves = []leafSpec{
 	{expr: "PVName", w: 2, class: "pflag-value"},
 	{expr: "PVPoint", w: 3, class: "pflag-value"},
 	{expr: "*PVLevel", w: 1, class: "pflag-value"},
+	// interface-typed fields (their template default decides what they become)
+	{expr: "any", w: 14, class: "iface-field"},
+	{expr: "Stringer", w: 10, class: "iface-field"},
 }
